@@ -772,6 +772,7 @@ pub fn gen_c18(tier: &str, seed: u64) -> Vec<Vec<String>> {
     let mut v = gen_c18_same_spec_reset(tier, seed);
     v.extend(gen_c18_main(tier, seed));
     v.extend(gen_c18_via_logger(tier, seed));
+    v.extend(gen_via_handle("C18", tier, seed));
     v
 }
 
@@ -825,6 +826,65 @@ fn gen_c18_via_logger(tier: &str, seed: u64) -> Vec<Vec<String>> {
     }
     cases
 }
+/// C16 / C18 through the public entry points of the `LoggerHandle`: `existing_log_files`,
+/// `reset_flw`, `trigger_rotation`, `flush` (handle and log facade) of a real `Logger` in every
+/// write mode (asynchronous modes: listings only after `shutdown()`, no reset — see 11.4)
+pub fn gen_via_handle(prop: &str, tier: &str, seed: u64) -> Vec<Vec<String>> {
+    let mut root = Rng::new(seed ^ 0x4A7D1E);
+    let mut cases = Vec::new();
+    for k in 0..n_cases(tier, 100, 1500) {
+        let mut r = root.fork();
+        let mut c = vec![format!("CASE flw {prop} h{k}")];
+        let naming = *r.pick(&NAMINGS);
+        let (spec, has_suffix) = gen_spec(&mut r, naming);
+        c.push(spec);
+        c.push(if r.chance(1, 3) { "VIA filewriter".to_string() } else { "VIA logger".to_string() });
+        let n: u64 = *r.pick(&[5, 40, 300]);
+        let cleanup = if r.chance(1, 3) && has_suffix { format!("{},{}", r.range(1, 3), r.below(3)) } else { "never".to_string() };
+        let rot = if r.chance(1, 5) { None } else { Some(format!("{n};_;{naming};{cleanup}")) };
+        let (mode, cap, is_async) = pick_mode(&mut r, &[16, 100, 8192], &[1, 3, 50], &[0, 10, 200]);
+        c.push(format!("MODE {mode}"));
+        c.push(format!("CFG {}", cfg_line(&rot, false, cap, false, has_suffix)));
+        let mut clock = Clock::new(&mut r);
+        let mut seq = 0;
+        let mut lw = |c: &mut Vec<String>, r: &mut Rng, clock: &mut Clock| {
+            let now = if is_async { clock.now() } else { clock.epoch += 1; clock.tick(r) };
+            c.push(format!("LW {} {now}", hex(&record(seq, r.range(2, 30)))));
+            seq += 1;
+        };
+        lw(&mut c, &mut r, &mut clock);
+        let sels = ["p", "pc", "pcr", "r", "c"];
+        let mut fam = 0;
+        for _ in 0..r.range(3, 16) {
+            match r.below(10) {
+                0 if !is_async => { c.push(format!("EXIST {} _", r.pick_s(&sels))); }
+                1 if !is_async && rot.is_some() => { clock.epoch += 1; c.push(format!("LROT {}", clock.tick(&mut r))); }
+                2 => { c.push("LFLUSH".into()); if !is_async { c.push("READ".into()); c.push("PARTS".into()); } }
+                3 if !is_async && r.chance(1, 2) => {
+                    // reset to another family in the same directory
+                    let (spec2, hs2) = gen_spec(&mut r, naming);
+                    let spec2 = spec2.replacen("SPEC ", "", 1);
+                    let mut p: Vec<String> = spec2.split(' ').map(str::to_string).collect();
+                    p[1] = format!("s{}", hexs(&format!("fam{fam}")));
+                    fam += 1;
+                    let cl2 = if hs2 { cleanup.clone() } else { "never".to_string() };
+                    let rot2 = rot.as_ref().map(|_| format!("{n};_;{naming};{cl2}"));
+                    c.push(format!("RESET {} {}", p.join(" "), cfg_line(&rot2, false, cap, false, hs2)));
+                    lw(&mut c, &mut r, &mut clock);
+                }
+                _ => lw(&mut c, &mut r, &mut clock),
+            }
+        }
+        c.push("LSHUT".into());
+        c.push("READ".into());
+        c.push("PARTS".into());
+        c.push("SNAP".into());
+        for sel in sels { c.push(format!("EXIST {sel} _")); }
+        c.push("END".into());
+        cases.push(c);
+    }
+    cases
+}
 fn gen_c18_main(tier: &str, seed: u64) -> Vec<Vec<String>> {
     gen_with(Opts { prop: "C18", size: true, age: false, force_rot: true, restarts: 0, cleanup: false, faults: false, ext: true, modes: false, max_ops: 40, namings: ALL, foreign: false, exist: false, bg: 0 }, tier, seed, 500, 6000)
 }
@@ -840,6 +900,7 @@ pub fn gen_c14(tier: &str, seed: u64) -> Vec<Vec<String>> {
 pub fn gen_c16(tier: &str, seed: u64) -> Vec<Vec<String>> {
     let mut v = gen_with(Opts { prop: "C16", size: true, age: true, force_rot: true, restarts: 2, cleanup: true, faults: false, ext: false, modes: false, max_ops: 30, namings: ALL, foreign: false, exist: true, bg: 0 }, tier, seed, 400, 5000);
     v.extend(crate::props::names::gen_names_cases("C16", tier, seed));
+    v.extend(gen_via_handle("C16", tier, seed ^ 0x16));
     v
 }
 
@@ -961,7 +1022,9 @@ pub fn gen_c11(tier: &str, seed: u64) -> Vec<Vec<String>> {
                 if tier != "thorough" && occ > 0 && !(p.starts_with("cleanup") || p.starts_with("compress")) { continue; }
                 for forced in [false, true] {
                     if forced && (p.starts_with("write") || (tier != "thorough" && (pi + hno as usize) % 2 == 0)) { continue; }
-                    let mut c = vec![format!("CASE flw C11 {k}"), spec.clone(), cfg0.clone()];
+                    let mut c = vec![format!("CASE flw C11 {k}"), spec.clone()];
+                    if (k + occ) % 4 == 1 { c.push("MODE capture".into()); }
+                    c.push(cfg0.clone());
                     k += 1;
                     c.extend(prefix.iter().cloned());
                     if forced { c.push(format!("CROT {vnow} {p} {occ}")); } else { c.push(format!("CW {victim} {vnow} {p} {occ}")); }
@@ -1047,7 +1110,10 @@ pub fn gen_c11(tier: &str, seed: u64) -> Vec<Vec<String>> {
         let cleanup = if !has_suffix && cleanup != "never" { "1,0".to_string() } else { cleanup };
         let cleanup = if cleanup == "0,0" { "never".to_string() } else { cleanup };
         let rot = Some(format!("{n};_;{naming};{cleanup}"));
-        let mut c = vec![format!("CASE flw C11 k{j}"), spec, format!("CFG {}", cfg_line(&rot, false, None, false, has_suffix))];
+        let mut c = vec![format!("CASE flw C11 k{j}"), spec];
+        // both direct write modes: `Direct` (also the default) and `SupportCapture`
+        match r.below(6) { 0 | 1 => c.push("MODE capture".into()), 2 => c.push("MODE direct".into()), _ => {} }
+        c.push(format!("CFG {}", cfg_line(&rot, false, None, false, has_suffix)));
         let mut clock = Clock::new(&mut r);
         let mut seq = 0;
         for _ in 0..r.below(4) {
